@@ -1652,8 +1652,8 @@ theorem NS_cancelRequest {s : St} (id : Nat) (h : NS s) : NS (cancelRequest s id
   · exact h
   · exact NS_removeTimer _ (NS_abortExec _ (NS_of_obs h rfl))
 
-theorem NS_rearm {s s2 : St} {now late : Nat} {en : SEntry} (hr : rearm s now late en = some s2) (h : NS s) : NS s2 := by
-  rcases rearm_cases s now late en with ⟨_, he⟩ | ⟨q, key, w, _, he⟩ <;> rw [he] at hr <;> cases hr
+theorem NS_rearm {s s2 : St} {now : Nat} {en : SEntry} (hr : rearm s now en = some s2) (h : NS s) : NS s2 := by
+  rcases rearm_cases s now en with ⟨_, he⟩ | ⟨q, key, w, _, he⟩ <;> rw [he] at hr <;> cases hr
   cases w
   · exact NS_of_obs h rfl
   · exact NS_of_obs (s := wakeServer s) (NS_wakeServer h) rfl
@@ -1745,32 +1745,34 @@ theorem rearmSteps_mono {r r' : Nat} (h : r ≤ r') : rearmSteps r ≤ rearmStep
     simp only [hk', Bool.false_eq_true, if_false]
     exact Nat.div_le_div_right (by omega)
 
-theorem rearmUpd_steps_le (id key late : Nat) (x : SEntry) :
-    rearmSteps (rearmUpd id key late x).remainder ≤ rearmSteps x.remainder := by
+theorem restOf_le (now : Nat) (x : SEntry) : restOf now x ≤ x.remainder := Nat.sub_le _ _
+
+theorem rearmUpd_steps_le (id key now : Nat) (x : SEntry) :
+    rearmSteps (rearmUpd id key now x).remainder ≤ rearmSteps x.remainder := by
   unfold rearmUpd
   split
-  · exact Nat.le_trans (rearmSteps_le (x.remainder - late)) (rearmSteps_mono (Nat.sub_le _ _))
+  · exact Nat.le_trans (rearmSteps_le (restOf now x)) (rearmSteps_mono (restOf_le now x))
   · exact Nat.le_refl _
 
-theorem rearmUpd_steps_lt (key late : Nat) (en : SEntry) (h0 : en.remainder - late ≠ 0) :
-    rearmSteps (rearmUpd en.id key late en).remainder < rearmSteps en.remainder := by
+theorem rearmUpd_steps_lt (key now : Nat) (en : SEntry) (h0 : restOf now en ≠ 0) :
+    rearmSteps (rearmUpd en.id key now en).remainder < rearmSteps en.remainder := by
   unfold rearmUpd
   rw [if_pos (by simp)]
-  exact Nat.lt_of_lt_of_le (rearmSteps_lt (en.remainder - late) h0) (rearmSteps_mono (Nat.sub_le _ _))
+  exact Nat.lt_of_lt_of_le (rearmSteps_lt (restOf now en) h0) (rearmSteps_mono (restOf_le now en))
 
-theorem rearm_inflight_of_some {s s2 : St} {now late : Nat} {en : SEntry} (hr : rearm s now late en = some s2) :
-    ∃ key, s2.inflight = s.inflight.map (rearmUpd en.id key late) := by
+theorem rearm_inflight_of_some {s s2 : St} {now : Nat} {en : SEntry} (hr : rearm s now en = some s2) :
+    ∃ key, s2.inflight = s.inflight.map (rearmUpd en.id key now) := by
   obtain ⟨q', key, w, _, rfl⟩ := rearm_some hr
   exact ⟨key, rfl⟩
 
-theorem rearm_budget {s s2 : St} {now late : Nat} {en : SEntry} (hmem : en ∈ s.inflight)
-    (h0 : en.remainder - late ≠ 0) (hr : rearm s now late en = some s2) : rearmBudget s2 < rearmBudget s := by
+theorem rearm_budget {s s2 : St} {now : Nat} {en : SEntry} (hmem : en ∈ s.inflight)
+    (h0 : restOf now en ≠ 0) (hr : rearm s now en = some s2) : rearmBudget s2 < rearmBudget s := by
   obtain ⟨key, hk⟩ := rearm_inflight_of_some hr
   unfold rearmBudget
   rw [hk]
   simp only [List.map_map, Function.comp_def]
-  exact sum_map_lt (fun x => rearmSteps x.remainder) (fun x => rearmSteps (rearmUpd en.id key late x).remainder) s.inflight
-    (fun x _ => rearmUpd_steps_le en.id key late x) ⟨en, hmem, rearmUpd_steps_lt key late en h0⟩
+  exact sum_map_lt (fun x => rearmSteps x.remainder) (fun x => rearmSteps (rearmUpd en.id key now x).remainder) s.inflight
+    (fun x _ => rearmUpd_steps_le en.id key now x) ⟨en, hmem, rearmUpd_steps_lt key now en h0⟩
 
 /-- a `continue` (re-arm) strictly decreases the budget -/
 theorem expireStep_budget (s : St) (now : Nat) (h : (expireStep s now).2 = none) :
@@ -1924,7 +1926,7 @@ theorem pollExpired_len (s : St) (now : Nat) :
       simp only [abortExec_timers]; exact ⟨Nat.le_of_lt this, fun _ => this⟩
     | rearmed q e en s2 hp hf h0 hr =>
       have := DelayQ.pollExpired_len_lt hp
-      rcases rearm_cases { s with timers := q } now (now - e.whenMs * nsPerMs) en with ⟨_, he⟩ | ⟨q', key, w, hi, he⟩
+      rcases rearm_cases { s with timers := q } now en with ⟨_, he⟩ | ⟨q', key, w, hi, he⟩
       · rw [he] at hr; cases hr
       · rw [he] at hr; cases hr
         have hl := DelayQ.insert_len hi
@@ -2736,8 +2738,8 @@ theorem fails_of_obs {s s' : St} (h : s'.obs = s.obs) : fails s' = fails s := by
   · rfl
   · simp only [fails_removeTimer, fails_abortExec]; rfl
 
-theorem fails_rearm {s s2 : St} {now late : Nat} {en : SEntry} (hr : rearm s now late en = some s2) : fails s2 = fails s := by
-  rcases rearm_cases s now late en with ⟨_, he⟩ | ⟨q, key, w, _, he⟩ <;> rw [he] at hr <;> cases hr
+theorem fails_rearm {s s2 : St} {now : Nat} {en : SEntry} (hr : rearm s now en = some s2) : fails s2 = fails s := by
+  rcases rearm_cases s now en with ⟨_, he⟩ | ⟨q, key, w, _, he⟩ <;> rw [he] at hr <;> cases hr
   cases w
   · rfl
   · exact fails_wakeServer s
